@@ -498,19 +498,25 @@ def parse_keywords(repo, pp, methods, aux, mdefaults):
 
 # ------------------------------------------------------------------------------------------------ bound expressions
 class BParser:
-    """C++ arithmetic over literals and n_vectors -> (lean term, is_int)"""
+    """C++ arithmetic over literals, n_vectors, current_dimension, parameters[kw], static_cast<IndexType|ScalarType>(..)
+    -> (lean term, is_int)"""
 
-    def __init__(self, toks):
+    def __init__(self, toks, kwtypes=None):
         self.t = toks
         self.i = 0
+        self.kwtypes = kwtypes or {}
 
-    def peek(self):
-        return self.t[self.i] if self.i < len(self.t) else None
+    def peek(self, k=0):
+        return self.t[self.i + k] if self.i + k < len(self.t) else None
 
     def take(self):
         t = self.peek()
         self.i += 1
         return t
+
+    def expect(self, tok):
+        if self.take() != tok:
+            raise TranslateError("expected %r in bound expression %s" % (tok, " ".join(self.t)))
 
     def parse(self):
         r = self.sum()
@@ -545,11 +551,31 @@ class BParser:
         t = self.take()
         if t == "(":
             r = self.sum()
-            if self.take() != ")":
-                raise TranslateError("unbalanced bound expression: " + " ".join(self.t))
+            self.expect(")")
             return r
         if t == "n_vectors":
             return ("BExpr.nVectors", True)
+        if t == "current_dimension":
+            return ("BExpr.currentDimension", True)
+        if t == "static_cast":
+            self.expect("<")
+            ty = self.take()
+            self.expect(">")
+            self.expect("(")
+            a = self.sum()
+            self.expect(")")
+            if ty == "IndexType":
+                return ("BExpr.toInt %s" % paren(a[0]), True)
+            if ty == "ScalarType":
+                return ("BExpr.toReal %s" % paren(a[0]), False)
+            raise TranslateError("static_cast to %s in bound expression %s" % (ty, " ".join(self.t)))
+        if t == "parameters":
+            self.expect("[")
+            kw = self.take()
+            self.expect("]")
+            if self.kwtypes.get(kw) not in ("int", "real"):
+                raise TranslateError("bound expression reads non-numeric / unknown keyword %s: %s" % (kw, " ".join(self.t)))
+            return ("BExpr.param Kw.%s" % kw, self.kwtypes[kw] == "int")
         if t is not None and re.match(r"[\d.]", t):
             isint, v = number_value(t)
             if isint:
@@ -565,7 +591,7 @@ def paren(s):
 PREDICATES = {"Positivity": 0, "NonNegativity": 0, "InRange": 2, "InClosedRange": 2}
 
 
-def parse_check(toks, kwidents):
+def parse_check(toks, kwidents, kwtypes=None):
     """parameters [ KW ] . checked ( ) . satisfies ( PRED < T > ( ARGS ) ) [. orThrow ( )] ;   ->  VStep lean term"""
     if toks[:2] != ["parameters", "["] or toks[3] != "]" or toks[2] not in kwidents:
         raise TranslateError("not a parameter check: " + " ".join(toks))
@@ -601,12 +627,49 @@ def parse_check(toks, kwidents):
     else:
         bs = []
         for a in args:
-            term, isint = BParser(a).parse()
+            term, isint = BParser(a, kwtypes if kwtypes is not None else getattr(parse_check, 'kwtypes', {})).parse()
             if ty == "int" and not isint:
                 raise TranslateError("floating bound converted to IndexType: " + " ".join(toks))
             bs.append(paren(term))
         p = "Pred.%s %s %s %s" % ("inRange" if pred == "InRange" else "inClosedRange", lean_ty, bs[0], bs[1])
     return "{ kw := Kw.%s, pred := %s, orThrow := %s }" % (kw, p, lean_bool(throws)), kw
+
+
+CMP = {">": "Cmp.gt", ">=": "Cmp.ge", "<": "Cmp.lt", "<=": "Cmp.le", "==": "Cmp.eq"}
+
+
+def parse_guarded(st, kwidents, kwtypes, where):
+    """if ( <bexpr> <cmp> <bexpr> ) <check> ;    (no else)"""
+    c = match_close(st, 1)
+    cond = st[2:c]
+    body = st[c + 1:]
+    if body and body[0] == "{":
+        e = match_close(body, 0)
+        if e != len(body) - 1:
+            raise TranslateError("conditional with else in %s::validate()" % where)
+        inner = statements(body[1:e])
+        if len(inner) != 1:
+            raise TranslateError("conditional block with %d statements in %s::validate()" % (len(inner), where))
+        body = inner[0]
+    if "else" in body or not is_check_stmt(body):
+        raise TranslateError("unrecognised conditional in %s::validate(): %s" % (where, " ".join(st)))
+    # split the condition at its single top-level comparison operator (not inside brackets / static_cast<>)
+    depth = 0
+    pos = None
+    for k, t in enumerate(cond):
+        if t in OPEN:
+            depth += 1
+        elif t in (")", "]", "}"):
+            depth -= 1
+        elif depth == 0 and t in CMP and not (t in ("<", ">") and k > 0 and (cond[k - 1] == "static_cast" or (k >= 2 and cond[k - 2] == "<" and cond[k - 3:k - 2] == ["static_cast"]))):
+            if pos is not None:
+                raise TranslateError("condition with several comparisons in %s::validate(): %s" % (where, " ".join(cond)))
+            pos = k
+    if pos is None:
+        raise TranslateError("condition without comparison in %s::validate(): %s" % (where, " ".join(cond)))
+    lhs, _ = BParser(cond[:pos], kwtypes).parse()
+    rhs, _ = BParser(cond[pos + 1:], kwtypes).parse()
+    return "VStmt.guarded %s %s %s %s" % (paren(lhs), CMP[cond[pos]], paren(rhs), parse_check(body, kwidents)[0])
 
 
 def is_check_stmt(toks):
@@ -1127,6 +1190,7 @@ def translate(ctx=None, repo=None, repo_hash=None, outdir=None):
     kwrows, indefaults = parse_keywords(repo, pp, methods, aux, mdefaults)
     kwidents = [r["ident"] for r in kwrows]
     kwtypes = {r["ident"]: r["ty"] for r in kwrows}
+    parse_check.kwtypes = kwtypes
     ctor_steps, helpers = parse_base(pp, kwidents)
     scanner = EventScanner(kwidents, helpers)
     impls = implementation_classes(pp, methods)
@@ -1214,14 +1278,17 @@ def translate(ctx=None, repo=None, repo_hash=None, outdir=None):
     L = [HEADER % "include/tapkee/methods/*.hpp validate(), methods/base.hpp (constructor, find_neighbors_with)",
          "import TapkeeVerif.Model.FrontSyntax", "namespace TapkeeVerif.Gen", "open TapkeeVerif.Front", ""]
     L.append("/-- `validate()` of each implementation class: the checks in source order -/")
-    L.append("def validate : Meth → List VStep")
+    L.append("def validate : Meth → List VStmt")
     for m in methods:
         vb = impls[m["ident"]][0]
         items = []
         for st in statements(vb):
-            if not is_check_stmt(st):
+            if is_check_stmt(st):
+                items.append("VStmt.check %s" % parse_check(st, kwidents)[0])
+            elif st[0] == "if":
+                items.append(parse_guarded(st, kwidents, kwtypes, m["ident"]))
+            else:
                 raise TranslateError("unrecognised statement in %s::validate(): %s" % (m["ident"], " ".join(st)))
-            items.append(parse_check(st, kwidents)[0])
         L.append("  | .%s => %s" % (mname(m["ident"]), lean_list(items, "    ")))
     L.append("\nend TapkeeVerif.Gen\n")
     files["Validate.lean"] = "\n".join(L)
